@@ -17,8 +17,15 @@ mod util;
 mod valparse;
 
 fn main() {
-    // quiet panics: they are caught and reported as values
-    std::panic::set_hook(Box::new(|_| {}));
+    let r = std::panic::catch_unwind(real_main);
+    if r.is_err() {
+        std::process::exit(3);
+    }
+}
+
+fn real_main() {
+    // panics inside `catch` are values; a panic outside is reported with the last input handed to the compiler (exit code 3)
+    util::install_panic_reporter();
     let args: Vec<String> = std::env::args().collect();
     let cmd = args.get(1).map(|s| s.as_str()).unwrap_or("");
     let tier = args.get(2).map(|s| s.as_str()).unwrap_or("quick");
@@ -35,6 +42,7 @@ fn main() {
         "behave_subsets" => behave::run_subsets(tier, seed, &mut out),
         "behave_matrix" => behave::run_matrix(tier, seed, &mut out),
         "behave_changes" => behave::run_changes(tier, seed, &mut out),
+        "pairs" => behave::run_pairs(tier, seed, &mut out),
         "attrroute" => behave::run_attrroute(tier, seed, &mut out),
         "guardden" => exprs::run_guardden(tier, seed, &mut out),
         "entnames" => lit::run_entnames(&mut out),
